@@ -118,6 +118,8 @@ def check(rep):
             rep.ok("C15.wiring" if what == "builds" else "C15.no-coercion", f"{construct} {what}", "",
                    f"{n} operand combinations", cases=n)
     rep.sample({"exponents rejected": [repr(e) for e in bad_exponents]})
+    from ..structure import check_no_coercing_dunders
+    check_no_coercing_dunders(rep, model, "C15.no-coercion")
     rep.require_floor("C15.wiring", 6, "operators")
     rep.require_floor("C15.no-coercion", 5, "operators")
     return rep.finish(
